@@ -384,7 +384,7 @@ func genWire(seed uint64, tier, mode string) *Script {
 			case r < 25:
 				ops = append(ops, Op{Kind: "valid", Actor: 0, N: g.n(1 << 30)})
 			case r < 75:
-				ops = append(ops, Op{Kind: "mutate", Actor: 0, N: g.n(1 << 30), Arg: pick(g, []string{"flip", "flip", "insert", "delete", "truncate", "lenfield", "attrlen", "random", "type", "openmut", "bigclaim"})})
+				ops = append(ops, Op{Kind: "mutate", Actor: 0, N: g.n(1 << 30), Arg: pick(g, []string{"flip", "flip", "insert", "delete", "truncate", "lenfield", "attrlen", "attrwrap", "random", "type", "openmut", "bigclaim"})})
 			case r < 85:
 				ops = append(ops, Op{Kind: "render", Actor: 0})
 			case r < 92:
@@ -908,6 +908,16 @@ func (w *simWorld) wireFuzzOp(st *wireState, op *Op, ensureUp func() bool, settl
 				i := 23 + g.n(len(msg)-23)
 				msg[i] = byte(pick(g, []int{0, 1, 254, 255, 128}))
 			}
+		case "attrwrap":
+			// one extended-length attribute whose declared length is within four of 65535: header
+			// plus value no longer fits a 16-bit size (a wrapped size passes a naive bounds check)
+			al := 0xfffc + g.n(4)
+			typ := byte(pick(g, []int{99, 2, 8, 14, 16, 1}))
+			val := make([]byte, g.n(6))
+			body := []byte{0, 0, 0, byte(4 + len(val)), 0x90 | byte(g.n(2))<<6, typ, byte(al >> 8), byte(al)}
+			body = append(body, val...)
+			body = append(body, 24, 10, 77, byte(g.n(200)))
+			msg = append(wHeader(wUpdate, len(body)), body...)
 		case "random":
 			n := 19 + g.n(60)
 			msg = wHeader(uint8(1+g.n(6)), n-19)
